@@ -80,8 +80,8 @@ Definition wf_rtable (k : rtable) (head : list Z) (rows : list (list Z)) : bool 
 
 (* ---- PrintFlags: "8?" and one more "?" when print_flags is there *)
 Definition write_print_flags (flags : list Z) (pf : option Z) : W :=
-  w_fmt (pack_fields (repeat FB (match pf with Some _ => 9 | None => 8 end))
-                     (flags ++ match pf with Some x => [x] | None => [] end)).
+  (* one write_fmt("%d?") call in the code; a '?' field packs any value, so the two parts never fail separately *)
+  w_fmt (pack_fields (repeat FB 8) flags) +++ match pf with Some x => w_fmt (pack_fields [FB] [x]) | None => w_nil end.
 Definition read_print_flags (s : stream) : res (list Z * option Z) :=
   do (flags, s1) <- unpack_fields (repeat FB 8) s;
   if is_readable 1 s1 then do (x, _) <- unpack_fields [FB] s1; Ok (flags, Some (nth 0 x 0)) else Ok (flags, None).
